@@ -387,6 +387,19 @@ func c06Eval(t *fw.T, c *fw.Case) {
 	}
 	decisions(t, want, "")
 	t.Sample("tree", map[string]interface{}{"input": text, "tree": resolver.Render(got)})
+	// the library resolves the contexts a second time when it expands macros, also in documents without any: the tree it
+	// goes on with must be the same one (every third sequence: the whole pipeline costs more than the scan)
+	if c.Index%3 == 0 && !strings.Contains(text, "PASTE") && !strings.Contains(text, "MACRO") {
+		o := t.ExecKeep(c.Docs[0])
+		if o.Core != nil && o.Outcome != run.Panic && o.Outcome != run.Budget {
+			if exp := o.Core.VerifDirectivesWithPastes(); len(exp) > 0 || len(want) == 0 {
+				t.Count("trees_after_expansion_compared")
+				if g, w := renderKinds(resolver.FromDirectives(exp)), renderKinds(want); g != w {
+					t.Violation("tree-after-expansion-differs", fmt.Sprintf("the directive tree after the expansion pass differs from the reference (no macros in the document):\n  library:   %s\n  reference: %s\n  input %s", g, w, fw.Short([]byte(text), 400)))
+				}
+			}
+		}
+	}
 }
 
 func orOK(s string) string {
